@@ -136,7 +136,7 @@ func (p *c01) build() {
 
 func (p *c01) NumCases(tier string, seed int64) int {
 	p.once.Do(p.build)
-	return len(p.enum) + tierN(tier, 30000, 1500000)
+	return len(p.enum) + tierN(tier, 100000, 9000000)
 }
 
 var c01LeafNames = []string{"l0", "l1", "l2", "l3", "l4", "l5", "a0", "a1", "ll0", "ll1", "ll2"}
